@@ -193,7 +193,7 @@ theorem insert_rel (ok : P.Ok) {s₁ s₂ : St} (h : Sim P X s₁ s₂) (r : Row
       subst hb
       exact ⟨hd.1, Nat.le_refl _⟩
     · exact .inl rfl
-    · intro hb
+    · intro _ hb
       simp only [List.mem_singleton] at hb
       exact absurd hb.symm hne
     · simp
